@@ -181,7 +181,7 @@ namespace ratio
                                     if (!cr.get_sat_core().new_clause({!var, !v}))
                                         throw inconsistency_exception(); // earlier constraints have already forced two different values..
                     }
-                    var_expr e = get_core().new_enum(get_type().get_field(name).get_type(), c_vars, c_vals);
+                    expr e = get_core().new_enum(get_type().get_field(name).get_type(), c_vars, c_vals); // of the kind of the field: boolean, arithmetic, object..
                     exprs.insert({name, e});
                     return e;
                 }
